@@ -60,6 +60,8 @@ PROXY_VARIANTS = [
     ("bad-port@1", b"PROXY TCP4 1.2.3.4 5.6.7.8 65536 80", None),
     ("family-mismatch@1", b"PROXY TCP6 1.2.3.4 5.6.7.8 1111 80", None),
     ("sloppy@1", b"PROXYX TCP4 1.2.3.4 5.6.7.8 +1_1 \t80", None),
+    ("nul-in-addr@1", b"PROXY TCP4 1.2.3.4\x00 5.6.7.8 1111 80", None),
+    ("bad-then-nul@1", b"PROXY TCP6 ::g ::1\x00 1111 80", None),
     ("tcp4@2", None, b"PROXY TCP4 1.2.3.4 5.6.7.8 1111 80"),
     ("tcp4@1+other@2", b"PROXY TCP4 1.2.3.4 5.6.7.8 1111 80", b"PROXY TCP4 6.6.6.6 5.6.7.8 2222 80"),
 ]
@@ -320,7 +322,7 @@ def run(ctx):
                        "forwarded_allow_ips {default, custom, *} x header_map {drop, refuse, dangerous} x forwarder_headers {default, custom, *} x "
                        "%d header scenarios (case / hyphen / underscore variants of the scheme headers, SCRIPT_NAME, PATH_INFO, a custom forwarder "
                        "header, colliding pairs, conflicting scheme headers) with the worker class rotating, + scheme extras; PROXY matrix on all 3 "
-                       "workers: 8 peers x proxy_protocol x proxy_allow_ips {default, custom, *} x 9 line variants (valid, invalid, sloppy, at "
+                       "workers: 8 peers x proxy_protocol x proxy_allow_ips {default, custom, *} x 11 line variants (valid, invalid, sloppy, NUL in an address, at "
                        "request 1 / 2 / both) x keep-alive depth 1-3, + keep-alive/Connection/body extras; then %d seeded random connections "
                        "(random settings, peers, header sets with spelling variants, PROXY lines, depth 1-3, 12%% with one byte mutated). "
                        "non-trivial = carries a header field, a PROXY line or more than one request; distinct by (worker, settings, peer, bytes)"
